@@ -544,8 +544,104 @@ def rule_holders(ck, rid="C05.R9"):
     ck.floor(rid, n, 15, "parameter-to-attribute stores of SessionInfo / InfrastructureInfo")
 
 
+# ----------------------------------------------------------------------------
+# R10 the interface is a stateless view: anything it remembers is re-validated against everything it was computed from
+# ----------------------------------------------------------------------------
+
+MEMO_DECORATORS = ("lru_cache", "cache", "cached_property", "memoize", "memoized")
+VIEW_ROOT_SKIP = {"_simulator", "network", "self"}
+
+
+def _value_roots(e, skip_attrs=()):
+    """terminal attribute names of the simulator state an (expanded) expression reads *by value*: the last component of every dotted
+    leaf; a leaf that only occurs as the argument of id(...) is an identity, not a value, and is left out"""
+    inside_id = set()
+    for c in ast.walk(e):
+        if isinstance(c, ast.Call) and call_name(c) == "id":
+            for x in ast.walk(c):
+                inside_id.add(id(x))
+    out = set()
+
+    def go(x):
+        if id(x) in inside_id:
+            return
+        d = dotted(x)
+        if d is not None:
+            last = d.split(".")[-1]
+            if "." in d and last not in VIEW_ROOT_SKIP and last not in skip_attrs and d.split(".")[0] not in ("np", "numpy", "math"):
+                out.add(NET_ALIASES.get(last, last))
+            return
+        for c in ast.iter_child_nodes(x):
+            go(c)
+    go(e)
+    return out
+
+
+def rule_stateless_view(ck, rid="C05.R10"):
+    """`the scheduler sees the true state`: every value an Interface method returns is computed from the simulator as it is now.  An
+    attribute the interface object keeps between calls (a memo) may only be handed out on a path whose guard compares, by value, every
+    piece of simulator state the remembered value was computed from; a memoising decorator keys on the object's identity only."""
+    repo = ck.repo
+    classes = [repo.cls("Interface")] + [c for c in repo.subclasses("Interface")]
+    n = 0
+    for ci in classes:
+        # attributes of the interface object written outside the constructor = remembered between calls
+        stores = {}
+        for name, m in ci.methods.items():
+            for dec in getattr(m.node, "decorator_list", []):
+                dn = (dotted(dec.func) if isinstance(dec, ast.Call) else dotted(dec)) or ""
+                n += 1
+                ck.require(dn.split(".")[-1] not in MEMO_DECORATORS, rid, m, dec, ok="no memoising decorator",
+                           bad=f"{ci.name}.{name} is memoised by `{dn}` on the identity of its arguments: later changes of the simulator "
+                               "(new limits, registrations, sessions) are invisible to the scheduler", sink=f"{name}:memo-decorator")
+            if name == "__init__":
+                continue
+            fl = flow_of(m)
+            for node, kind, path, tgt in state_writes(fl):
+                if path.startswith("self.") and path.split(".")[1] != "_simulator" and path.count(".") == 1:
+                    val = getattr(node.stmt, "value", None)
+                    if val is not None:
+                        stores.setdefault(path, []).append((m, fl, node, val))
+        if not stores:
+            n += 1
+            ck.holds(rid, ci.methods.get("__init__") or next(iter(ci.methods.values())), f"{ci.name}: keeps no state between calls besides the simulator reference")
+            continue
+        for path, sts in sorted(stores.items()):
+            attr = path.split(".")[1]
+            need = set()
+            for m, fl, node, val in sts:
+                need |= _value_roots(fl.expand(val, node), skip_attrs=(attr,))
+            for name, m in sorted(ci.methods.items()):
+                if name == "__init__":
+                    continue
+                fl = flow_of(m)
+                for r in fl.cfg.nodes:
+                    if r.kind != "return" or r.expr is None:
+                        continue
+                    e = fl.expand(r.expr, r)
+                    if not any(dotted(x) == path for x in ast.walk(e)):
+                        continue
+                    # a return of the value stored on this very path (`self.X = E; return self.X`) is E itself
+                    if any(fl.cfg.dominates(node, r) for mm, ff, node, val in sts if mm is m):
+                        continue
+                    n += 1
+                    covered = set()
+                    for a, t in facts_at(fl, r):
+                        if path in src(a) and isinstance(a, ast.Compare) and (
+                                (t and isinstance(a.ops[0], (ast.Eq, ast.Is))) or (not t and isinstance(a.ops[0], (ast.NotEq, ast.IsNot)))):
+                            for side in [a.left] + list(a.comparators):
+                                covered |= _value_roots(fl.expand(side, r), skip_attrs=(attr,))
+                    missing = sorted(need - covered)
+                    ck.require(not missing, rid, m, r.stmt, ok=f"`{path}` is reused only when everything it was computed from is unchanged",
+                               bad=f"{ci.name}.{name} hands out `{path}`, remembered from an earlier call and computed from "
+                                   f"{sorted(need)}; the test that lets it be reused compares only {sorted(covered) or 'nothing'}: a later change of "
+                                   f"{missing} (update_constraint, a registration, a new limit) never reaches the scheduler", sink=f"{name}:stale:{attr}")
+    ck.floor(rid, n, 1, "Interface classes / remembered attributes / memoising decorators examined")
+
+
 def run(ck):
     ck.attempt(rule_order)
+    ck.attempt(rule_stateless_view)
     ck.attempt(rule_escape)
     ck.attempt(rule_binding)
     ck.attempt(rule_active)
